@@ -3,7 +3,6 @@ package checks
 import (
 	"encoding/json"
 	"fmt"
-	"net"
 	"reflect"
 	"sort"
 	"strings"
@@ -60,6 +59,10 @@ func c10Alphabet(k int) []c10Sym {
 	a = append(a, c10Sym{"hang-and-reset", 0, ""}, c10Sym{"hang-and-reset", k - 1, ""})
 	// eight changes in a row (the order in which hc walks its connections is random per change)
 	a = append(a, c10Sym{"app-burst", -1, "A"})
+	// one PUT entry carrying "value" and "ev" together
+	for c := 0; c < k; c++ {
+		a = append(a, c10Sym{"write-sub", c, "A"}, c10Sym{"write-unsub", c, "A"})
+	}
 	return a
 }
 
@@ -107,11 +110,18 @@ func (r *c10Run) installAppState() {
 			defer r.appMu.Unlock()
 			return r.appState[name]
 		})
-		ch.OnValueUpdateFromConn(func(_ net.Conn, _ *characteristic.Characteristic, nv, _ interface{}) {
+		// the application follows remote writes through the typed callback of the characteristic's type, registered
+		// here — after the transport was created — as applications do
+		follow := func(nv interface{}) {
 			r.appMu.Lock()
 			r.appState[name] = nv
 			r.appMu.Unlock()
-		})
+		}
+		if name == "A" {
+			r.b.Switch.Switch.On.OnValueRemoteUpdate(func(v bool) { follow(v) })
+		} else {
+			r.b.Bulb.Lightbulb.Brightness.OnValueRemoteUpdate(func(v int) { follow(v) })
+		}
 	}
 }
 
@@ -241,6 +251,16 @@ func (r *c10Run) step(sym c10Sym) bool {
 			r.val[sym.Ch] = v
 			notify(sym.Ch, v, sym.Conn)
 		}
+	case "write-sub", "write-unsub":
+		// one entry that writes a changing value AND registers for / cancels event notifications
+		ch, aid := r.ch(sym.Ch)
+		v := r.other(sym.Ch)
+		if !put(sym.Conn, fmt.Sprintf(`{"characteristics":[{"aid":%d,"iid":%d,"value":%v,"ev":%v}]}`, aid, ch.ID, v, sym.Op == "write-sub")) {
+			return false
+		}
+		r.val[sym.Ch] = v
+		notify(sym.Ch, v, sym.Conn)
+		r.subs[fmt.Sprintf("%d/%s", sym.Conn, sym.Ch)] = sym.Op == "write-sub"
 	case "write-over-max", "app-over-max":
 		ch, aid := r.ch(sym.Ch)
 		if sym.Op == "write-over-max" {
@@ -476,7 +496,7 @@ func c10Run1(c *fw.Ctx) {
 			var keep []c10Sym
 			for _, s := range alpha {
 				switch s.String() {
-				case "unsub(c1,B)", "sub(c1,N)", "write(c1,N)", "write-same(c1,A)", "write-two(c1)":
+				case "unsub(c1,B)", "sub(c1,N)", "write(c1,N)", "write-same(c1,A)", "write-two(c1)", "write-sub(c1,A)", "write-unsub(c0,A)":
 					continue
 				}
 				keep = append(keep, s)
@@ -535,7 +555,7 @@ func init() {
 	fw.Register(&fw.Check{
 		ID:    "C10",
 		Level: "model_checking",
-		Rule:  "every history of length 3 with 2 verified controller connections over the mirror-reduced alphabet (quick) / length 4 with 2 connections over the mirror-reduced alphabet, length 3 with 2 and with 3 connections over the full alphabet (thorough) over: subscribe, unsubscribe, changing write, non-changing write, a PUT writing two characteristics, application set (changing / non-changing), close, reconnect — on an observable bool of one accessory, an observable int of another, a characteristic without event permission, a second accessory's characteristic with the same instance id as the first, and out-of-range writes that are clamped, and a connection whose read blocks in an application callback and which then resets its socket (it stays registered but dead while later events happen); every history also from the non-initial state 'every connection subscribed and notified once' (one level less deep); real transport over TCP with real pair-verify, fresh system per history. After EVERY event a barrier request on every open connection collects the EVENT messages that arrived; they must equal the reference model (subscription relation × value × open set): exactly one EVENT with the new value per subscribed other connection, none to the originator, to unsubscribed or closed ones, none for unchanged values or characteristics without event permission. A mismatch is re-checked after 20 ms and 500 ms before it counts. states = histories executed, distinct_nontrivial = distinct (event, characteristic, per-connection expected EVENT count pattern) classes The alphabet is also explored (one level less deep) with an application that keeps the state itself (read callback answering from its state, remote-update callback following writes). Plus a depth-1 sweep over every observable readable constructor × its value alphabet (strings that look like protocol lines included): exactly one EVENT carrying exactly the value, and the connection stays in frame. Plus, in a subprocess built with a scheduling point before EVERY statement of hc's packages (textual insertion through go build -overlay): every interleaving with at most 1 (thorough 2) preemptions of pairs of operations on disjoint objects — and, where the property is about served requests, of pairs of handlers on two verified connections of one accessory touching different characteristics — each side must observe exactly what it observes when the two run one after the other (module-level mutable state is what makes them differ).",
+		Rule:  "every history of length 3 with 2 verified controller connections over the mirror-reduced alphabet (quick) / length 4 with 2 connections over the mirror-reduced alphabet, length 3 with 2 and with 3 connections over the full alphabet (thorough) over: subscribe, unsubscribe, changing write, non-changing write, a PUT writing two characteristics, a PUT entry that writes and subscribes / unsubscribes at once, application set (changing / non-changing), close, reconnect — on an observable bool of one accessory, an observable int of another, a characteristic without event permission, a second accessory's characteristic with the same instance id as the first, and out-of-range writes that are clamped, and a connection whose read blocks in an application callback and which then resets its socket (it stays registered but dead while later events happen); every history also from the non-initial state 'every connection subscribed and notified once' (one level less deep); real transport over TCP with real pair-verify, fresh system per history. After EVERY event a barrier request on every open connection collects the EVENT messages that arrived; they must equal the reference model (subscription relation × value × open set): exactly one EVENT with the new value per subscribed other connection, none to the originator, to unsubscribed or closed ones, none for unchanged values or characteristics without event permission. A mismatch is re-checked after 20 ms and 500 ms before it counts. states = histories executed, distinct_nontrivial = distinct (event, characteristic, per-connection expected EVENT count pattern) classes The alphabet is also explored (one level less deep) with an application that keeps the state itself (read callback answering from its state, typed remote-update callbacks — registered after the transport was created — following writes). Plus a depth-1 sweep over every observable readable constructor × its value alphabet (strings that look like protocol lines included): exactly one EVENT carrying exactly the value, and the connection stays in frame. Plus, in a subprocess built with a scheduling point before EVERY statement of hc's packages (textual insertion through go build -overlay): every interleaving with at most 1 (thorough 2) preemptions of pairs of operations on disjoint objects — and, where the property is about served requests, of pairs of handlers on two verified connections of one accessory touching different characteristics — each side must observe exactly what it observes when the two run one after the other (module-level mutable state is what makes them differ).",
 		Run:   c10Run1,
 		Replay: func(c *fw.Ctx, raw json.RawMessage) {
 			var cas c10Case
